@@ -321,6 +321,7 @@ func TestCheck(t *testing.T) {
 	r.Set("convergence_runs", conv)
 	r.Set("distinct_nontrivial", nontrivial)
 	r.Set("worker_processes", int64(len(pl.ws)))
+	feedFanout(r)
 	if trace {
 		fmt.Println(strings.Join(per, "\n"))
 	}
